@@ -36,7 +36,7 @@ ASSUMPTIONS = [
     "reference index algebra written from cubed/primitive/DESIGN.md and the Dask blockwise documentation, not from the code",
     "fusion legality is decided by cubed's own can_fuse_multiple_primitive_ops plus the optimiser's structural rules (single consumer, single-output predecessor)",
 ]
-NSHARDS = {"quick": 16, "thorough": 32}
+NSHARDS = {"quick": 16, "thorough": 16}
 C = 2  # chunk size of every fake dimension
 
 
@@ -553,10 +553,10 @@ def finalize(tier, merged):
     return {
         "rule": RULE,
         "floors": [
-            ("index expressions run through the real primitive", c.get("index_expressions", 0), 30000 if tier == "quick" else 500000),
-            ("output blocks compared with the reference algebra", c.get("output_blocks_checked", 0), 150000 if tier == "quick" else 2000000),
-            ("expressions with one array in two argument positions under different index expressions", c.get("expressions_with_a_repeated_array", 0), 1500 if tier == "quick" else 20000),
-            ("fusion DAGs in which at least one fusion happened", c.get("dags_with_fusion", 0), 8000 if tier == "quick" else 300000),
+            ("index expressions run through the real primitive", c.get("index_expressions", 0), 30000 if tier == "quick" else 250000),
+            ("output blocks compared with the reference algebra", c.get("output_blocks_checked", 0), 150000 if tier == "quick" else 1000000),
+            ("expressions with one array in two argument positions under different index expressions", c.get("expressions_with_a_repeated_array", 0), 1500 if tier == "quick" else 10000),
+            ("fusion DAGs in which at least one fusion happened", c.get("dags_with_fusion", 0), 8000 if tier == "quick" else 150000),
             ("distinct key-function kinds in fused DAGs", len(merged["hist"].get("ops", {})), 8),
         ],
         "assumptions": ASSUMPTIONS,
